@@ -387,6 +387,19 @@ Definition ctx_pick_iter (t : tbl) (u : pred) (care_vars : option (list ident))
     end
   end.
 
+(* Context.pick: next(self.pick_iter(u, care_vars), None) *)
+Definition ctx_pick (t : tbl) (u : pred) (care_vars : option (list ident))
+    (cubes : list cube) : option (option fasgn) :=
+  match ctx_pick_iter t u care_vars cubes with
+  | Some (d :: _) => Some (Some d)
+  | Some [] => Some None
+  | None => None
+  end.
+
+(* Context.replace_with_bdd: dd let with BDDs for Boolean-valued variables *)
+Definition ctx_replace_with_bdd (subs : list (ident * pred)) (u : pred) : pred :=
+  bcompose (map (fun xq => ((fst xq, 0%nat), snd xq)) subs) u.
+
 (* the measured contract of dd.pick_iter(u, care_bits) over the universe of
    declared bits: the cubes are pairwise disjoint (two cubes disagree on some
    bit both assign), their union is the set of models of u, every cube assigns
